@@ -1,10 +1,12 @@
 #!/bin/bash
-# every confirmed seeded change must be reported by the check of ITS OWN property
+# every confirmed seeded change must be reported by the check of ITS OWN property (PAR jobs in parallel, default 4)
 cd /verif
-for d in seeded/C??-?; do
-  id=$(basename $d); prop=${id%-*}
-  [ -f $d/patch.diff ] || continue
+one() {
+  d=$1; id=$(basename $d); prop=${id%-*}
+  [ -f $d/patch.diff ] || exit 0
   valid=$(python3 -c "import json;print(json.load(open('$d/meta.json')).get('valid'))" 2>/dev/null)
   out=$(tools/mutant.sh $d/patch.diff $prop 2>&1)
   if echo "$out" | grep -q "^CAUGHT"; then echo "ok   $id (valid=$valid) $(echo "$out" | grep -m1 -E '^  C[0-9]+\.' | cut -c1-160)"; else echo "MISS $id (valid=$valid) $(echo "$out" | head -1)"; fi
-done
+}
+export -f one
+ls -d seeded/C??-? | xargs -P ${PAR:-4} -I{} bash -c 'one {}' | sort -k2
